@@ -298,8 +298,8 @@ def generate(rng, index, cfg):
                     ex["body"] = '{"merged": {"cells": [' if k == "badjson" else jbody(bodies[k])
         elif r < 0.80:
             ex["path"] = "/api/closetool"
-            code = rng.choice([0, 1, 3, 7])
-            how = rng.choice(["query", "json", "header", "none", "badjson_header", "bad"])
+            code = rng.choice([0, 1, 3, 7, -1, 255])
+            how = rng.choice(["query", "json", "json", "json_string", "header", "none", "badjson_header", "bad"])
             ex["kind"] = "close"
             ex["exit_code"] = code
             ex["how"] = how
@@ -308,6 +308,8 @@ def generate(rng, index, cfg):
                 ex["body"] = ""
             elif how == "json":
                 ex["body"] = jbody({"exitCode": code})
+            elif how == "json_string":
+                ex["body"] = jbody({"exitCode": str(code)})
             elif how == "header":
                 ex["headers"]["exit_code"] = str(code)
                 ex["body"] = "{}"
